@@ -1240,6 +1240,16 @@ def m_localkey_with(eng, st, args, info):
     return eng.call_value(st, f, [cell], info["depth"])
 
 
+def m_localkey_cell(op):
+    """LocalKey<Cell<T>>::{get, set, take, replace}: the same Cell operation on this thread's value (what `.with(|c| c.op(..))` does)"""
+    def m(eng, st, args, info):
+        key = args[0]
+        keyv = eng.freeze(st, eng.deref_value(st, key)) if key[0] in ("ref", "refv") else key
+        cell = ("ref", ("ext", ("tls_value", keyv), ()))
+        return {"get": m_cell_get, "set": m_cell_set, "take": m_cell_take, "replace": m_cell_replace}[op](eng, st, [cell] + list(args[1:]), info)
+    return m
+
+
 def m_cell_get(eng, st, args, info):
     v = eng.deref_value(st, args[0])
     if v[0] == "adt" and v[1].startswith("core::cell::Cell"):
@@ -1781,6 +1791,10 @@ DEFAULT_MODELS = {
     "core::option::Option::ok_or": m_ok_or,
     "std::thread::local::LocalKey::with": m_localkey_with,
     "core::cell::Cell::get": m_cell_get,
+    "std::thread::local::LocalKey::get": m_localkey_cell("get"),
+    "std::thread::local::LocalKey::set": m_localkey_cell("set"),
+    "std::thread::local::LocalKey::take": m_localkey_cell("take"),
+    "std::thread::local::LocalKey::replace": m_localkey_cell("replace"),
     "core::cell::Cell::set": m_cell_set,
     "core::cell::Cell::take": m_cell_take,
     "core::cell::Cell::new": m_cell_new,
